@@ -4,8 +4,13 @@
  * functions after logging.  No edits to /repo. */
 #ifndef C04_IPOSE_H
 #define C04_IPOSE_H
-#define qt_threadqueue_enqueue         c04_enq_tail
-#define qt_threadqueue_enqueue_yielded c04_enq_head
+#ifndef C04_TU
+# error "define C04_TU (0 qthread.c, 1 feb.c, 2 syncvar.c, 3 io.c) before including c04_ipose.h"
+#endif
+#define C04_CAT_(a, b) a##b
+#define C04_CAT(a, b)  C04_CAT_(a, b)
+#define qt_threadqueue_enqueue         C04_CAT(c04_enq_tail, C04_TU)
+#define qt_threadqueue_enqueue_yielded C04_CAT(c04_enq_head, C04_TU)
 #ifdef C04_IPOSE_QTHREAD
 # define qt_scheduler_get_thread       c04_get_thread
 # define qthread_find_active_shepherd  c04_fas
